@@ -139,7 +139,15 @@ def print_parse_probes(rep):
         ty, _, val, rest = mm.groups()
         v = int(val)
         if ty in ('Timestamp', 'TimestampTz'):
-            cls = 'sub-second-part' if v % 1000000 != 0 else 'whole-seconds'
+            pm = _re.search(r'printed "[+-]?(\d+)-[^"]*?( BC)?[^"]*"', rest)
+            if v % 1000000 != 0:
+                cls = 'sub-second-part'
+            elif pm and pm.group(2) and len(pm.group(1)) >= 5:
+                cls = 'bc-year-of-five-digits'
+            elif pm and len(pm.group(1)) >= 5:
+                cls = 'year-beyond-9999'
+            else:
+                cls = 'whole-seconds'
         elif ty == 'Date':
             cls = 'year-beyond-9999' if v > 2932896 else ('year-before-1' if v < -719162 else 'common-era')
         else:
